@@ -949,11 +949,11 @@ Theorem exactly_once_imp : forall s w i c,
   exists es, nth_error (w_cards w) i = Some (c_num c, es) /\
     forall q,
       imp_cell_side q es =
-        (if flag (s_flags s) CImp then [] else if mem q (ikeys (c_imp c)) then [ival q (c_imp c)] else []) /\
+        (if flag (s_flags s) CImp then []
+         else if andb (mem q (ikeys (c_imp c))) (mem q (s_mode s)) then [ival q (c_imp c)] else []) /\
       imp_data_side q i (w_data w) =
         (if andb (flag (s_flags s) CImp) (mem q (s_mode s)) then [ival q (c_imp c)] else []) /\
       (mem q (ikeys (c_imp c)) = false -> ival q (c_imp c) = 0%Z) /\
-      (flag (s_flags s) CImp = false -> mem q (ikeys (c_imp c)) = true -> mem q (s_mode s) = true) /\
       (flag (s_flags s) CImp = true -> mem q (s_mode s) = true -> mem q (ikeys (c_imp c)) = true).
 Proof.
   intros s w i c Hwf Hc Hw Hi.
@@ -963,7 +963,7 @@ Proof.
   destruct (card_imp (s_mode s) (s_flags s) c) as [es' [He' Hes']].
   { intro Hf. eapply clean_cell_imp; eauto. }
   rewrite He' in Hcard. inversion Hcard; subst n es'. clear Hcard.
-  exists es. split; [exact Hn|]. intro q. split; [apply Hes'|]. split; [|split; [|split]].
+  exists es. split; [exact Hn|]. intro q. split; [apply Hes'|]. split; [|split].
   - unfold imp_data_side. rewrite (write_mods s w CImp Hwf Hw), (mod_cards_imp s Hc).
     destruct (flag (s_flags s) CImp) eqn:Hf; simpl; auto.
     destruct (s_cells s) as [|c0 cs] eqn:Ecs; [destruct i; discriminate|].
@@ -972,8 +972,6 @@ Proof.
     unfold imp_vector. rewrite nth_error_map, Hi. reflexivity.
   - intro Hk. unfold ival. destruct (ifind q (c_imp c)) eqn:E; auto.
     assert (mem q (ikeys (c_imp c)) = true) by (apply ifind_key; eauto). congruence.
-  - intros Hf Hk. destruct (clean_cell_imp s c Hc Hin Hf) as [_ H2]. unfold imp_keys_ok in H2.
-    rewrite subset_In in H2. apply mem_In. apply H2. apply mem_In. exact Hk.
   - intros Hf Hm. apply clean_parts in Hc. destruct Hc as [_ [Hd _]]. unfold imp_data_ok in Hd.
     simpl in Hf. rewrite Hf in Hd. simpl in Hd. rewrite forallb_forall in Hd.
     specialize (Hd c Hin). rewrite subset_In in Hd. apply mem_In. apply Hd. apply mem_In. exact Hm.
@@ -1126,10 +1124,7 @@ Definition cell_ok (mode : list particle) (c : cell) : bool :=
   andb (imp_parts_ok (c_imp c))
   (andb (imp_keys_ok mode (c_imp c))
   (andb (subset mode (ikeys (c_imp c)))
-  (andb (lat_cell_ok c)
-  (andb (match c_vol c with VDeleted => false | _ => true end)
-  (andb (match c_u c with None => false | Some _ => true end)
-        (negb (c_fill_tr c))))))).
+        (negb (c_fill_tr c)))).
 
 (* every cell is in a state that every one of the 32 placements can write *)
 Definition sclean (s : state) : bool := forallb (cell_ok (s_mode s)) (s_cells s).
@@ -1138,7 +1133,7 @@ Lemma sclean_clean : forall s, sclean s = true -> clean s = true.
 Proof.
   intros s H. unfold sclean in H. rewrite forallb_forall in H.
   assert (G : forall c, In c (s_cells s) -> cell_ok (s_mode s) c = true) by exact H.
-  unfold clean, imp_cell_ok, imp_data_ok, lat_ok, vol_ok, u_ok, fill_ok.
+  unfold clean, imp_cell_ok, imp_data_ok, fill_ok.
   repeat (apply andb_true_iff; split); apply orb_true_iff; right; apply forallb_forall; intros c Hc;
     specialize (G c Hc); unfold cell_ok in G;
     repeat (apply andb_true_iff in G; let X := fresh in destruct G as [X G]); auto.
@@ -1298,15 +1293,14 @@ Proof.
   assert (es' = es) by congruence. subst es'.
   exists es. split; auto. split.
   - intros k N. apply Ho. exact N.
-  - intro q. destruct (Him q) as [A [B [C [D E]]]]. unfold once_imp.
+  - intro q. destruct (Him q) as [A [B [C E]]]. unfold once_imp.
     destruct (mem q (s_mode s)) eqn:Em.
     + destruct (flag (s_flags s) CImp) eqn:Ef; simpl in B.
       * split; auto.
-      * split; auto. destruct (mem q (ikeys (c_imp c))) eqn:Ek; auto.
+      * split; auto. rewrite andb_true_r in A. destruct (mem q (ikeys (c_imp c))) eqn:Ek; auto.
     + rewrite andb_false_r in B. split; auto. rewrite A.
       destruct (flag (s_flags s) CImp) eqn:Ef; auto.
-      destruct (mem q (ikeys (c_imp c))) eqn:Ek; auto.
-      discriminate (D eq_refl eq_refl).
+      rewrite andb_false_r. reflexivity.
 Qed.
 
 (* ================================================================== every placement; histories *)
